@@ -221,7 +221,7 @@ func reflectStruct(rv reflect.Value, val any, opt *Options) any {
 	for _, fi := range fields {
 		if v, fv, omit := fi.value(fi, rv, addr); !omit {
 			if fv.IsValid() {
-				if opt.NestEmbed && fv.Kind() == reflect.Struct {
+				if opt.NestEmbed && fv.Kind() == reflect.Struct && fv.Type() != timeType {
 					v = reflectEmbed(fv, v, opt)
 				} else {
 					v = decompose(v, opt)
@@ -248,7 +248,7 @@ func reflectEmbed(rv reflect.Value, val any, opt *Options) any {
 	for _, fi := range fields {
 		if v, fv, omit := fi.ivalue(fi, rv, 0); !omit {
 			if fv.IsValid() {
-				if opt.NestEmbed && fv.Kind() == reflect.Struct {
+				if opt.NestEmbed && fv.Kind() == reflect.Struct && fv.Type() != timeType {
 					v = reflectEmbed(fv, v, opt)
 				} else {
 					v = decompose(v, opt)
@@ -340,3 +340,6 @@ func condMapSet(m map[string]any, key string, value any, opt *Options) {
 	}
 	m[key] = value
 }
+
+// A time.Time is a struct but not one to take apart, it is a value.
+var timeType = reflect.TypeOf(time.Time{})
